@@ -94,6 +94,9 @@ def gen(rng, tier, index):
         rb = [0.0, 0.0, 0.0] if scene["bodies"][b]["kind"] == "point" else rng.uniform(-0.1, 0.1, 3).tolist()
         scene["tpis"].append({"a": "origin", "b": ["body", b], "ra": [0, 0, 0], "rb": rb, "add": True})
         scene["laws"].append({"type": "spring", "on": ["tpi", 0], "k": float(rng.uniform(1, 10)), "l_ref": None, "compliance": False})
+    for b in scene["bodies"]:
+        if b["kind"] == "rigid" and rng.random() < 0.6:
+            b["mesh"] = {"dims": rng.uniform(0.1, 0.6, 3).tolist(), "offset": (rng.uniform(-0.2, 0.2, 3) * float(rng.choice([0.0, 1.0]))).tolist(), "A": rot.rand_quat(rng).tolist() if rng.random() < 0.5 else None}
     plan["scene"] = scene
     name = str(rng.choice(["Moreau", "Rattle", "BackwardEuler"]))
     steps = int(rng.integers(3, 60))
@@ -112,6 +115,9 @@ def gen(rng, tier, index):
             ops.append({"what": "list:bodies_same_kind"})
         else:
             ops.append({"what": targets[int(rng.integers(len(targets)))], "file_name": None if rng.random() < 0.6 else str(rng.choice(["a", "b"]))})
+            w = ops[-1]["what"]
+            if w.startswith("body") and scene["bodies"][int(w[4:])].get("mesh") and rng.random() < 0.3:
+                ops[-1]["base_export"] = True  # the point-like export of the underlying rigid body instead of its mesh
     if rng.random() < 0.4 and ops:
         ops.append(dict(ops[0]))  # the same thing twice into one folder
     if rng.random() < 0.3:
@@ -154,20 +160,29 @@ class Geo:
             return qb[:3], rot.quat_to_mat(qb[3:]), ub[:3], ub[3:]
         return qb[:3], np.eye(3), ub[:3], np.zeros(3)
 
-    def expect(self, what, t, q, u, sol_row):
+    def expect(self, what, t, q, u, sol_row, base_export=False):
         """-> (points, point_data, cell_data) expected in the file."""
         kind = "".join(c for c in what if not c.isdigit())
         idx = int("".join(c for c in what if c.isdigit()) or 0)
         sc = self.sc
         if kind == "body":
             r, A, v, w = self.body(idx, q, u)
+            ms = sc["bodies"][idx].get("mesh")
+            if ms and not base_export:
+                # the visual mesh: box vertices placed in the body frame, moved with the body
+                import trimesh
+
+                V = np.asarray(trimesh.creation.box(extents=np.array(ms["dims"], dtype=float)).vertices, dtype=float)
+                A_BM = rot.quat_to_mat(ms["A"]) if ms.get("A") is not None else np.eye(3)
+                off = np.array(ms.get("offset", [0, 0, 0]), dtype=float)
+                return [r + A @ (off + A_BM @ vtx) for vtx in V], {}, {}
             if sc["bodies"][idx]["kind"] == "rigid":
                 return [r], {}, {"v": [v], "Omega": [A @ w], "ex": [A[:, 0]], "ey": [A[:, 1]], "ez": [A[:, 2]]}
             return [r], {}, {"v": [v]}
         if kind == "frame":
             fm = self.B.frame_motions[idx]
             A = fm.A(t)
-            th_t = fm.alpha * fm.w * np.cos(fm.w * t)
+            th_t = fm.alpha * fm._s_t(t)
             Om = fm.A0 @ fm.axis * th_t if fm.moving else np.zeros(3)
             v = fm.r_t(t) if fm.moving else np.zeros(3)
             return [fm.r(t)], {}, {"v": [v], "Omega": [Om], "ex": [A[:, 0]], "ey": [A[:, 1]], "ez": [A[:, 2]]}
@@ -387,18 +402,23 @@ def execute(plan, out, log):
                             names = [f"contact{i}" for i in range(len(lst))]
                         else:
                             kind0 = B.scene["bodies"][0]["kind"]
-                            ids = [i for i, b in enumerate(B.scene["bodies"]) if b["kind"] == kind0]
+                            mesh0 = bool(B.scene["bodies"][0].get("mesh"))  # a list holds contributions of one type
+                            ids = [i for i, b in enumerate(B.scene["bodies"]) if b["kind"] == kind0 and bool(b.get("mesh")) == mesh0]
                             lst = [B.bodies[i] for i in ids]
                             names = [f"body{i}" for i in ids]
                         e.export_contr(lst)
                         contrs = list(zip(names, lst))
                     else:
                         c = _contr_of(B, what)
+                        kw = {}
                         if op.get("file_name"):
-                            e.export_contr(c, file_name=op["file_name"])
-                        else:
-                            e.export_contr(c)
+                            kw["file_name"] = op["file_name"]
+                        if op.get("base_export"):
+                            kw["base_export"] = True
+                        e.export_contr(c, **kw)
                         contrs = [(what, c)]
+                        if what.startswith("body") and B.scene["bodies"][int(what[4:])].get("mesh"):
+                            out["probes"]["meshed_body_exported" if not op.get("base_export") else "meshed_body_base_export"] += 1
                 except Exception as ex:
                     out["violations"].append(violation("export_crash", what.rstrip("0123456789"), f"export op {k} ({what}) raised {type(ex).__name__}: {ex}"))
                     return
@@ -430,10 +450,10 @@ def execute(plan, out, log):
                     fn = exp_rod
                 else:
 
-                    def fn(t, q, u, row, contrs=contrs):
+                    def fn(t, q, u, row, contrs=contrs, base=bool(op.get("base_export"))):
                         P, PD, CD = [], {}, {}
                         for nm, c in contrs:
-                            p, pd, cd = geo.expect(nm, t, q, u, row)
+                            p, pd, cd = geo.expect(nm, t, q, u, row, base_export=base)
                             P.extend(p)
                             for store, src in ((PD, pd), (CD, cd)):
                                 for key, val in src.items():
